@@ -1456,7 +1456,7 @@ Proof.
 Qed.
 
 Lemma normalized_loop_16 : forall v11 l run_rev, sur_paired (rev run_rev ++ l) = true ->
-  (forall c, In c l -> p_crforbidden v11 c = false) ->
+  (forall c, In c l -> p_comment_error v11 c = false) ->
   payload (normalized_loop fam_utf16 v11 l run_rev) = Ok (rev run_rev ++ l).
 Proof.
   intros v11. induction l as [|c r IH]; intros run_rev Hp Hc.
@@ -1474,7 +1474,7 @@ Proof.
 Qed.
 
 Theorem comment_verbatim : forall v11 s, wf_text v11 s = true ->
-  (forall c, In c s -> p_crforbidden v11 c = false) ->
+  (forall c, In c s -> p_comment_error v11 c = false) ->
   payload (write_comment fam_utf16 v11 s) = Ok ([60; 33; 45; 45] ++ s ++ [45; 45; 62]).
 Proof.
   intros v11 s Hw Hc. unfold write_comment, write_normalized_data. rewrite !payload_app.
@@ -1526,7 +1526,7 @@ Section CommentOther.
         apply payload_app_inv in Hb. destruct Hb as (b1 & b2 & Hb1 & Hb2 & ->).
         rewrite (payload_o_str rep rep_low [10] eq_refl) in Hb1. injection Hb1 as <-.
         rewrite (o_name_ok _ P1 S1 a Ha). rewrite (IH [] b2 P2 S2 Hb2). reflexivity.
-      + destruct (p_crforbidden v11 c); [cbn in H; discriminate|].
+      + destruct (p_comment_error v11 c); [cbn in H; discriminate|].
         rewrite (IH (c :: run_rev) bs); cbn [rev]; rewrite <- ?app_assoc; auto.
   Qed.
 End CommentOther.
